@@ -98,6 +98,41 @@ def _copy_or_self(t, x):
     return t == ('name', x) or t == ('sub', ('name', x), ('slice', None, None, None))
 
 
+def raw_cost_receives_a_copy(ctx):
+    """the raw cost never sees the solver's own live vector (DE hands its trialSolution list down the chain): one of the two
+    wrappers that are always on the chain - wrap_penalty, wrap_function - hands on a copy.  With no copy a cost that works
+    on its argument in place rewrites the vector the solver then stores next to the energy of the original one, and an
+    in-process map behaves differently from a process map (which always works on a pickled copy).  Shared by C01.b, C07.i."""
+    def _is_copy(t_, x_):
+        if t_ == ('sub', ('name', x_), ('slice', None, None, None)):
+            return True
+        return t_[0] == 'call' and T.show(t_[1]).split('.')[-1] in ('copy', 'deepcopy', 'list', 'array') and len(t_[2]) >= 1 and \
+            (t_[2][0] == ('name', x_) or (t_[1][0] == 'attr' and t_[1][1] == ('name', x_)))
+    f, ret = _wrapper_ret(ctx, 'mystic.tools:wrap_penalty.function_wrapper')
+    outer = ctx.func('mystic.tools:wrap_penalty')
+    cf = outer.args()[0]
+    x = f.args()[0]
+    pen_copies = False
+    for sub in T.subterms(ret):
+        if isinstance(sub, tuple) and sub and sub[0] == 'call' and T.show(sub[1]) == cf and len(sub[2]) == 1:
+            pen_copies = _is_copy(sub[2][0], x)
+    wf = ctx.func('mystic.tools:wrap_function.function_wrapper')
+    wouter = ctx.func('mystic.tools:wrap_function')
+    raw = wouter.args()[0]
+    wx = wf.args()[0]
+    bw = T.Builder()
+    fun_copies = None
+    for st in stmts_of(wf.node):
+        for c in calls_where(st, lambda c: isinstance(c.func, ast.Name) and c.func.id == raw, include_lambda=False):
+            if c.args:
+                fun_copies = _is_copy(T.simp(bw.t(c.args[0])), wx)
+        if isinstance(st, ast.Assign) and all(isinstance(tg, ast.Name) for tg in st.targets):
+            bw.exec_stmt(st)
+    ctx.need(fun_copies is not None, 'wrap_function.function_wrapper no longer calls the raw function')
+    ctx.check(pen_copies or fun_copies, 'wrap_penalty/wrap_function#copy', 'the raw cost receives a copy of the solver\'s vector (%s)' % ('wrap_penalty' if pen_copies else 'wrap_function'),
+              'neither wrap_penalty nor wrap_function copies the vector before the raw cost sees it: the solver\'s own trial vector reaches user code, and an in-place cost leaves (stored point, stored energy) out of step', f, f.node)
+
+
 @rule('C01.b', min_instances=3)
 def wrappers_mean_what_they_say(ctx):
     """wrap_penalty = cost(a)+penalty(a) at one and the same a; wrap_nested = outer(inner(copy of x)); reduced applies the reducer to the result"""
@@ -106,6 +141,7 @@ def wrappers_mean_what_they_say(ctx):
     cf, pf = outer.args()[:2]
     x = f.args()[0]
     good = False
+    a1 = (None,)
     if T.is_poly(ret) and len(ret[1]) == 2:
         atoms = {}
         for m, c in ret[1]:
@@ -117,6 +153,7 @@ def wrappers_mean_what_they_say(ctx):
     ctx.stats['terms_compared'] += 1
     ctx.check(good, 'wrap_penalty.function_wrapper', 'returns cost(a) + penalty(a), a = copy of x',
               'wrap_penalty returns %s: cost and penalty are not added / not evaluated at one and the same vector' % T.show(ret), f, f.node)
+    raw_cost_receives_a_copy(ctx)
     f, ret = _wrapper_ret(ctx, 'mystic.tools:wrap_nested.function_wrapper')
     outer = ctx.func('mystic.tools:wrap_nested')
     of, inf_ = outer.args()[:2]
@@ -520,3 +557,10 @@ def members_are_evaluated_after_bounds_and_constraints(ctx):
     """the point whose energy is stored is the image under BOTH the constraints and the strict bounds: all six coupling sites build and_(self._constraints, self._strictbounds, onfail=self._strictbounds) under strict ranges and self._constraints otherwise (shared with C03.d) - with the bare constraints under tight ranges the reported best solution is a vector the cost was never called with"""
     from .c03 import and_falls_back_to_bounds
     and_falls_back_to_bounds(ctx)
+
+
+@rule('C01.k', min_instances=3)
+def ensemble_reports_its_best_members_pair(ctx):
+    """ensemble solvers report the (point, energy) pair of one member: __update_state hands bestSolution and bestEnergy (with population, popEnergy, the counter) back from the same best member on every path on which the scan found one - the arrays are shared with the member but the energy is a scalar copy, so a skipped hand-back leaves cost(bestSolution) != bestEnergy (shared with C09.a)"""
+    from .c09 import reduction
+    reduction(ctx)
